@@ -31,6 +31,7 @@ type c06Case struct {
 	Writer  string            `json:"writer"` // tobytes | bytes | default
 	Env     EnvCfg            `json:"env"`
 	Stream  bool              `json:"stream_reader"`
+	EnvChoices
 }
 
 func c06LongVal(n int) string {
@@ -75,6 +76,7 @@ func c06One(c *mc.Ctx, k c06Case) (encoded bool) {
 	c.Eval(1)
 	p := k.params()
 	bad := func(class, format string, a ...interface{}) {
+		k.EnvChoices = currentEnvChoices()
 		c.Violate("roundtrip", "C06|"+class, fmt.Sprintf("flags=%#x seq=%d proto=%d int=%d entries str=%d entries long=%d payload=%d writer=%s stream=%v [%s]: ", k.Flags, k.Seq, k.Proto, len(p.IntInfo), len(p.StrInfo), k.LongLen, k.Payload, k.Writer, k.Stream, k.Env)+fmt.Sprintf(format, a...), k)
 	}
 	payload := stream(k.Payload)
@@ -254,10 +256,15 @@ func c06One(c *mc.Ctx, k c06Case) (encoded bool) {
 				return
 			}
 		}
-		r.Release(nil)
+		rl0 := 0
+		if (int(k.Flags)+k.Payload)%2 == 0 {
+			r.Release(nil)
+		} else {
+			rl0 = r.ReadLen() // pipelined: the next frame is decoded without a Release in between
+		}
 		dB, errB := ttheader.Decode(ctx, r)
-		if errB != nil || dB.HeaderLen != len(frame) || dB.PayloadLen != len(payload) || r.ReadLen() != len(frame) || !mapsEqStr(dB.StrInfo, p.StrInfo) || !mapsEqInt(dB.IntInfo, p.IntInfo) || uint16(dB.Flags) != k.Flags || dB.SeqID != k.Seq {
-			bad("second-message-on-reader", "decoding the second, identical frame from the same reader after Release: err=%v HeaderLen=%d PayloadLen=%d ReadLen=%d (want %d/%d/%d)", errB, dB.HeaderLen, dB.PayloadLen, r.ReadLen(), len(frame), len(payload), len(frame))
+		if errB != nil || dB.HeaderLen != len(frame) || dB.PayloadLen != len(payload) || r.ReadLen()-rl0 != len(frame) || !mapsEqStr(dB.StrInfo, p.StrInfo) || !mapsEqInt(dB.IntInfo, p.IntInfo) || uint16(dB.Flags) != k.Flags || dB.SeqID != k.Seq {
+			bad("second-message-on-reader", "decoding the second, identical frame from the same reader (released in between: %v): err=%v HeaderLen=%d PayloadLen=%d consumed=%d (want %d/%d/%d)", rl0 == 0, errB, dB.HeaderLen, dB.PayloadLen, r.ReadLen()-rl0, len(frame), len(payload), len(frame))
 			return
 		}
 		var d2 ttheader.DecodeParam
@@ -507,7 +514,7 @@ func init() {
 		Replay: func(c *mc.Ctx, sub string, raw json.RawMessage) {
 			replayAs(raw, func(k c06Case) {
 				setAllocCap(64 << 20)
-				c06One(c, k)
+				withEnvChoices(k.EnvChoices, func() { c06One(c, k) })
 			})
 		},
 	})
